@@ -15,7 +15,7 @@
                completion, then the worker is released *)
 EXTENDS Integers, Sequences, FiniteSets, TLC, Json
 
-WorkerGates == {"ds.loop.top#2", "ds.loop.top#3", "ds.retry.begin", "ds.retry.pool", "ds.retry.chosen", "ds.wait", "ds.wait#2", "ds.woken", "ds.woken#2", "ds.upreset.retry",
+WorkerGates == {"ds.pe#5", "ds.pe#6", "ds.loop.top#2", "ds.loop.top#3", "ds.retry.begin", "ds.retry.pool", "ds.retry.chosen", "ds.wait", "ds.wait#2", "ds.woken", "ds.woken#2", "ds.upreset.retry",
                 "ds.pe#7", "ds.pe#8", "ds.pe#10"}
                 \* ds.pe#n = the n-th processError of the request: #6 follows the first send, #7/#8 follow the re-send of a retry after
                 \* one/two synchronous connect failures, #10 follows the re-send of a retry decided on a 5xx response
@@ -52,10 +52,24 @@ Feasible(c) ==
                           /\ c.during \in {"upclose", "upresp"}
                           /\ c.hold2 \in {"ds.loop.top#2", "ds.loop.top#3", "ds.retry.begin", "ds.retry.pool", "ds.upreset.retry", "ds.woken"}
 
-Cases == { c \in [cluster : Clusters, script : Scripts, try : BOOLEAN,
-                  hold : WorkerGates \cup TimerGates \cup UpGates \cup {"none"},
-                  during : Durings \cup {"none"},
-                  hold2 : WorkerGates \cup {"none"}] : Feasible(c) }
+Cases0 == { c \in [cluster : Clusters, script : Scripts, try : BOOLEAN,
+                   hold : WorkerGates \cup TimerGates \cup UpGates \cup {"none"},
+                   during : Durings \cup {"none"},
+                   hold2 : WorkerGates \cup {"none"}] : Feasible(c) }
+WithBody(c, b) == [cluster |-> c.cluster, script |-> c.script, try |-> c.try, hold |-> c.hold, during |-> c.during,
+                   hold2 |-> c.hold2, body |-> b]
+(* Requests WITH A BODY go through two more phases between the header phase and the wait for the upstream: the upstream
+   stream is admitted (requests resource, leased connection) in the header phase, the request counts as sent only after
+   the last part went out.  The gates ds.pe#5..#7 fall into and around that window for such a request. *)
+BodyGates == {"none", "ds.pe#5", "ds.pe#6", "ds.pe#7", "ds.wait", "ds.woken"}
+BodyCases == { WithBody(c, TRUE) : c \in { x \in [cluster : {"direct", "r1"}, script : {<<"ok">>, <<"gate">>, <<"gateclose">>, <<"hang">>, <<"s503", "ok">>},
+                                                  try : BOOLEAN, hold : BodyGates, during : {"none", "clientreset", "gtimer", "upresp", "upclose"},
+                                                  hold2 : {"none"}] :
+                                             /\ (x.during = "none" <=> x.hold = "none")
+                                             /\ (x.during = "upresp" => Has(x.script, "gate"))
+                                             /\ (x.during = "upclose" => Has(x.script, "gateclose"))
+                                             /\ ((Has(x.script, "gate") \/ Has(x.script, "gateclose")) => x.during \in {"upresp", "upclose"}) } }
+Cases == { WithBody(c, FALSE) : c \in Cases0 } \cup BodyCases
 
 (* Explicit schedules read off TLC counterexamples of DownstreamImpl (defect cfgs): the sequence of gate
    arrivals/releases that realises the behaviour on the real code.
@@ -74,9 +88,9 @@ LateReset == << "hold:ds.ptimer.fire", "hold:ds.woken", "hold:ds.retry.abort",
                 "arrive:ds.ptimer.fire", "do:up503", "arrive:ds.woken", "await:ds.gtimer",
                 "release:ds.woken", "arrive:ds.retry.abort", "release:ds.ptimer.fire", "await:us.reset",
                 "release:ds.retry.abort" >>
-LateResetCases == { [cluster |-> cl, script |-> sc, try |-> TRUE, hold |-> "none", during |-> "none", hold2 |-> "none",
+LateResetCases == { [cluster |-> cl, script |-> sc, try |-> TRUE, hold |-> "none", during |-> "none", hold2 |-> "none", body |-> FALSE,
                      steps |-> LateReset] : cl \in {"direct", "r1"}, sc \in {<<"gs503", "ok">>, <<"gs503", "hang">>} }
-StepCases == LateResetCases \cup { [cluster |-> cl, script |-> sc, try |-> (t = "ptimer"), hold |-> "none", during |-> "none", hold2 |-> "none",
+StepCases == LateResetCases \cup { [cluster |-> cl, script |-> sc, try |-> (t = "ptimer"), hold |-> "none", during |-> "none", hold2 |-> "none", body |-> FALSE,
                 steps |-> StaleTimer(t)] : cl \in {"r1", "r2"}, sc \in {<<"ok">>, <<"hang">>, <<"s503", "ok">>, <<"close">>}, t \in {"ptimer", "gtimer"} }
 
 VARIABLE c
